@@ -81,4 +81,5 @@ T_NeverReAdded       == [][IsReset \/ StepNeverReAdded]_tvars
 T_ChildrenFollowLate == [][IsReset \/ StepChildrenFollowLate]_tvars
 T_SurvivesRestart    == [][IsReset \/ StepSurvivesRestart]_tvars
 T_DeletedIdsGrowOnly == [][IsReset \/ StepDeletedIdsGrowOnly]_tvars
+T_KidsHandled        == [][IsReset \/ StepKidsHandled]_tvars
 =============================================================================
